@@ -11,7 +11,8 @@ import (
 
 func (e *Engine) newVC(fn *ssa.Function) *FnVC {
 	key := e.keyOf(fn)
-	vc := &FnVC{eng: e, fn: fn, key: key, spec: e.db.Funcs[key], sorts: NewSorts(e.db), declared: map[string]bool{},
+	sp0, ftParams := e.specFor(fn)
+	vc := &FnVC{eng: e, fn: fn, key: key, spec: sp0, ftParams: ftParams, sorts: NewSorts(e.db), declared: map[string]bool{},
 		epMemo: map[string]string{}, assumes: map[string]bool{}, oblNames: map[string]int{}, tablesUsed: map[string]bool{}, specFnUsed: map[string]bool{}}
 	return vc
 }
@@ -56,6 +57,12 @@ func (e *Engine) BuildVC(fn *ssa.Function) (vc *FnVC) {
 		fr.vals[p] = v
 		fr.params[p.Name()] = v
 	}
+	for i, n := range vc.ftParams {
+		if i < len(fn.Params) {
+			fr.params[n] = fr.vals[fn.Params[i]]
+		}
+	}
+	fr.params["self"] = val{t: vc.fnID(fn), typ: fn.Type(), fn: fn}
 	for _, fv := range fn.FreeVars {
 		n := vc.declare(q("fv:"+fv.Name()), "Int")
 		vc.assume("true", fmt.Sprintf("(and (> %s 0) (<= %s alloc0))", n, n))
@@ -86,8 +93,10 @@ func (e *Engine) BuildVC(fn *ssa.Function) (vc *FnVC) {
 		}
 	}
 	// vacuity guard: preconditions + prelude must be satisfiable
+	vc.emit(";;SMOKE-BEGIN")
 	vc.emit("(echo \"@smoke\")")
 	vc.emit("(check-sat)")
+	vc.emit(";;SMOKE-END")
 	vc.exec(fr, st)
 	if len(fr.rets) == 0 {
 		vc.note("function never returns normally")
@@ -140,8 +149,15 @@ func (e *Engine) BuildVC(fn *ssa.Function) (vc *FnVC) {
 			if c.Kind != "ensures" {
 				continue
 			}
-			t := vc.evalBool(pfr, fin, vc.old, c.E, vars)
-			vc.oblige("ensures", c.Src, fin.reach, t, vc.tagsFor(fr, c), fmt.Sprintf("%s:%d", c.File, c.Line))
+			parts := splitConj(c.E, e.db, 0)
+			for k, pe := range parts {
+				t := vc.evalBool(pfr, fin, vc.old, pe, vars)
+				desc := c.Src
+				if len(parts) > 1 {
+					desc = fmt.Sprintf("%s/%d", shorten(c.Src, 48), k+1)
+				}
+				vc.oblige("ensures", desc, fin.reach, t, vc.tagsFor(fr, c), fmt.Sprintf("%s:%d", c.File, c.Line))
+			}
 		}
 		if sp.HasMods && !sp.NoFrame {
 			vc.frameCheck(fr, fin, sp, vars)
@@ -304,21 +320,41 @@ func (vc *FnVC) Script(timeoutMs int, models bool) string {
 			rs = "Bool"
 		}
 		fn := q("tbl:" + name)
-		fmt.Fprintf(&sb, "(declare-fun %s (Int) %s)\n", fn, rs)
 		keys := e.tableDomain(t)
+		ids := map[string]int{}
 		for _, k := range keys {
-			v, ok := t.Entries[k.name]
-			if !ok {
-				if !t.HasDef {
-					continue
-				}
-				v = t.Default
+			ids[k.name] = k.id
+		}
+		valOf := func(v string) string {
+			if id, ok := ids[v]; ok {
+				return fmt.Sprint(id)
 			}
-			fmt.Fprintf(&sb, "(assert (= (%s %d) %s))\n", fn, k.id, smtInt(v))
+			return smtInt(v)
 		}
 		if t.HasDef {
-			// nil function value
-			fmt.Fprintf(&sb, "(assert (= (%s 0) %s))\n", fn, smtInt(t.Default))
+			// total definition: an ite chain over the function ids, default elsewhere
+			body := valOf(t.Default)
+			n := 0
+			for i := len(keys) - 1; i >= 0; i-- {
+				k := keys[i]
+				if v, ok := t.Entries[k.name]; ok && v != t.Default {
+					body = fmt.Sprintf("(ite (= x %d) %s %s)", k.id, valOf(v), body)
+					n++
+				}
+			}
+			fmt.Fprintf(&sb, "(define-fun %s ((x Int)) %s %s)\n", fn, rs, body)
+			for name := range t.Entries {
+				if _, ok := ids[name]; !ok {
+					e.specError("table %s: %s is not a function of type %s", t.Name, name, t.KeyType)
+				}
+			}
+			continue
+		}
+		fmt.Fprintf(&sb, "(declare-fun %s (Int) %s)\n", fn, rs)
+		for _, k := range keys {
+			if v, ok := t.Entries[k.name]; ok {
+				fmt.Fprintf(&sb, "(assert (= (%s %d) %s))\n", fn, k.id, valOf(v))
+			}
 		}
 	}
 	for _, name := range sortedKeys(vc.specFnUsed) {
